@@ -352,6 +352,19 @@ func (p *Prog) witnessType(f *ssa.Function, w *Witness) types.Type {
 			}
 		}
 	}
+	// the call is not (or no longer) in the function: type the witness from a repo function of that name, so that the
+	// clauses still make sense (they then speak about a witness that is never captured)
+	if id := strings.TrimSpace(w.Expr.Text); strings.HasPrefix(id, "callresult") {
+		idx := 0
+		if len(id) > len("callresult") {
+			fmt.Sscanf(id[len("callresult"):], "%d", &idx)
+		}
+		for _, g := range p.allFuncs() {
+			if g.Name() == w.Callee && idx < g.Signature.Results().Len() {
+				return g.Signature.Results().At(idx).Type()
+			}
+		}
+	}
 	return types.Typ[types.Int]
 }
 
